@@ -229,12 +229,18 @@ example :
 /-- A conversion in place, and any save over an existing UFO, is written into a temporary UFO and
 moved in at the end (`overwritePath` in `Font.save`): in M-SaveSteps that is the mode
 `saveAsOver p`, with `p` the font's own path for an in-place conversion.  Whatever step fails before
-the final replace, every UFO on disk — the destination included — is exactly as it was. -/
-theorem destination_intact_until_done (w : SaveSteps.World) (p k : Nat)
-    (hk : k + 2 ≤ (SaveSteps.plan w.font (.saveAsOver p)).length) :
+the final replace, every UFO on disk — the destination included — is exactly as it was; and a failure of
+the final replace itself puts the destination back (C18's `destination_untouched`). -/
+theorem destination_intact_until_done (w : SaveSteps.World) (p k : Nat) (ha : w.aside = none)
+    (hk : k + 3 ≤ (SaveSteps.plan w.font (.saveAsOver p)).length) :
     (SaveSteps.failAt (.saveAsOver p) w k).disk = w.disk :=
-  DefconModel.Props.C18.other_destination_untouched_partial w p k hk
+  DefconModel.Props.C18.destination_untouched_before_replace w p k ha hk
 
-example : 2 + 2 ≤ (SaveSteps.plan DefconModel.Props.C18.w20.font (.saveAsOver 1)).length := by decide
+theorem destination_intact_on_any_failure (w : SaveSteps.World) (p k q : Nat) (ha : w.aside = none)
+    (hk : k + 1 < (SaveSteps.plan w.font (.saveAsOver p)).length) :
+    SaveSteps.lookup (SaveSteps.failAt (.saveAsOver p) w k).disk q = SaveSteps.lookup w.disk q :=
+  DefconModel.Props.C18.destination_untouched w p k q ha hk
+
+example : 2 + 3 ≤ (SaveSteps.plan DefconModel.Props.C18.w20.font (.saveAsOver 1)).length := by decide
 
 end DefconModel.Props.C16
